@@ -385,10 +385,21 @@ def run(ctx):
     Cu = Canon(P, uf)
     inst_param = uf.params[0][1]
     nun = 0
+    def pointees(fn_, ptr, depth=0, seen=None):
+        """(root, fields) alternatives of a pointer that may be a merge (`pp = &head` / `pp = &node->link.next`)"""
+        seen = seen if seen is not None else set()
+        d_ = fn_.defs.get(ptr)
+        if d_ is not None and d_.op in ('phi', 'select') and depth < 4 and ptr not in seen:
+            seen.add(ptr)
+            out = []
+            for v_ in ([v for v, _ in d_.incoming] if d_.op == 'phi' else d_.ops[1:]):
+                out += pointees(fn_, v_, depth + 1, seen)
+            return out
+        root_, steps_ = access_path(P, fn_, ptr)
+        return [(root_, fields_in_path(steps_))]
     for st in [i for i in uf.insts() if i.op == 'store']:
-        root, steps = access_path(P, uf, st.ops[1])
-        fl = fields_in_path(steps)
-        if not (root == '@active_instances' or ('ec_backend', 'link') in fl):
+        alts = pointees(uf, st.ops[1])
+        if not any(root == '@active_instances' or ('ec_backend', 'link') in fl for root, fl in alts):
             continue
         nun += 1
         F = Facts(P, uf, st.bb)
@@ -409,7 +420,7 @@ def run(ctx):
                        'every instance between that node and the removed one is cut out of the list')
     if not nun:
         r.undecided('unregister: list surgery', loc=uf.mod.src, msg='no store into the registry list found')
-    r.require_min(2)
+    r.require_min(1)                # two stores (head case / predecessor case) or one store through a pointer-to-link
 
     # ---------------- R14l registry state written at insertion is maintained at removal
     r = ctx.rule('R14l', 'every global that register points at an instance is also updated by unregister',
@@ -425,6 +436,12 @@ def run(ctx):
             # the stored value is an instance pointer (the parameter or something read from the registry)
             if ins.ty and 'ec_backend*' in ins.ty.replace(' ', '') and 'rwlock' not in glob:
                 out.setdefault(glob, ins)
+        # stores through a merged pointer (`*pp = ...` with pp = &global or &node->link)
+        for ins in fn_.insts():
+            if ins.op == 'store' and ins.ty and 'ec_backend*' in ins.ty.replace(' ', ''):
+                for root_, fl_ in pointees(fn_, ins.ops[1]):
+                    if isinstance(root_, str) and root_.startswith('@') and 'rwlock' not in root_:
+                        out.setdefault(root_, ins)
         return out
     gr, gu = instance_globals(rf_), instance_globals(uf_)
     if not gr:
